@@ -28,7 +28,7 @@ func VerifStartDaemon(cfg *VerifConfig, conns []VerifConn, listen []string) *Ver
 func verifConnections(conns []VerifConn) []Connection {
 	out := make([]Connection, 0, len(conns))
 	for i := range conns {
-		out = append(out, Connection{Name: conns[i].Name, ID: conns[i].ID, Source: conns[i].Source, Fallback: conns[i].Fallback, Flags: conns[i].Flags})
+		out = append(out, Connection{Name: conns[i].Name, ID: conns[i].ID, Source: conns[i].Source, Fallback: conns[i].Fallback, Flags: conns[i].Flags, Section: conns[i].Section})
 	}
 
 	return out
